@@ -63,6 +63,7 @@ type dirRepoUpload struct {
 	filename  string
 	dr        *dirRepo
 	sessionID string
+	locked    bool // created and closed by a method that holds the repo lock
 }
 
 // NewDir returns a directory store.
@@ -441,6 +442,7 @@ func (dr *dirRepo) blobCreate(locked bool, opts ...BlobOpt) (BlobCreator, string
 		filename:  filename,
 		dr:        dr,
 		sessionID: sessionID,
+		locked:    locked,
 	}
 	dr.timeMod = time.Now()
 	// the next check of the index reads index.json again
@@ -800,11 +802,18 @@ func (dru *dirRepoUpload) Close() error {
 		}
 	}
 	blobName := filepath.Join(tgtDir, dru.d.Digest().Encoded())
+	// the GC holds the repo lock from looking at the age of a blob until removing it, the blob is not replaced in between
+	if !dru.locked {
+		dru.dr.mu.Lock()
+	}
 	err = os.Rename(dru.filename, blobName)
 	if err == nil {
 		// the grace period of the blob starts when the upload completes, not with the last data written
 		now := time.Now()
 		_ = os.Chtimes(blobName, now, now)
+	}
+	if !dru.locked {
+		dru.dr.mu.Unlock()
 	}
 	err = errors.Join(err, dru.dr.uploads.Delete(dru.sessionID))
 	dru.dr.log.Debug("blob created", "repo", dru.dr.name, "digest", dru.d.Digest().String(), "err", err)
